@@ -2,7 +2,9 @@ package main
 
 import (
 	"fmt"
+	"go/types"
 	"strings"
+	"text/template/parse"
 
 	"golang.org/x/tools/go/ssa"
 )
@@ -54,6 +56,7 @@ func checkC08(cx *Ctx, r *Report) {
 	r.Clauses = []string{
 		"persist last, once: Storage.CreateAuthRequest has exactly one call site in the SSO handler's scope, inside the last step of the chain; no error callback, no earlier step and nothing after the chain can persist",
 		"unanswerable requests are rejected before persistence: the supported-binding decision is a step in front of the persist step, and after the chain the only possible outcome is the 303 redirect to the login URL of the identifier storage returned",
+		"a page is not cut short by its data: each substitution of the two auto-submit templates is a plain string field of the struct handed to Execute (no method, function or pipeline that could return an error while the page is being streamed), so rendering cannot stop half-way and be followed by an error text in the same reply",
 		"exactly one reply: every error callback of the SSO chain, the handler's own exits, sendBackResponse and sendBackLogoutResponse perform exactly one effective reply act on every path (none = empty reply, two = concatenated replies)",
 	}
 	r.NotDec = []string{"atomicity of the storage implementation itself", "what net/http does with a reply after the handler returned"}
@@ -181,6 +184,7 @@ func checkC08(cx *Ctx, r *Report) {
 	// shared reply functions
 	cx.checkEmitExactlyOne(r, "R-EMIT", "provider.(*Response).sendBackResponse", w.Func("provider.(*Response).sendBackResponse"))
 	cx.checkEmitExactlyOne(r, "R-EMIT", "provider.(*LogoutResponse).sendBackLogoutResponse", w.Func("provider.(*LogoutResponse).sendBackLogoutResponse"))
+	cx.checkPageCannotFailOnData(r)
 	// ErrorFunc literals of the three handlers that build a Response/LogoutResponse
 	for _, hk := range []string{kSSO, kCallback, kLogout} {
 		h := w.Func(hk)
@@ -362,4 +366,56 @@ func checkChainHandlerEmit(cx *Ctx, r *Report, rule, name string, ch *Chain) {
 		return
 	}
 	r.Ok(rule, name+":handler-paths", w.FnPos(ch.Fn), fmt.Sprintf("%d early exits and %d pass paths with exactly one reply act, %d fail paths with none", nPre, nPass, nFail))
+}
+
+// checkPageCannotFailOnData (R-TPL-DATA): the auto-submit pages are streamed straight into the reply; if a
+// substitution could fail for a reason in the data (an accessor method returning an error, a template function),
+// the reply would be a partial page followed by whatever the error path writes - two messages in one reply. Every
+// action must therefore be a plain reference to a string field of the data struct.
+func (cx *Ctx) checkPageCannotFailOnData(r *Report) {
+	w := cx.W
+	for _, tp := range []struct{ constName, dataType string }{{"postTemplate", "authResponseForm"}, {"logoutTemplate", "LogoutResponseForm"}} {
+		txt, ok := w.pkgConst("provider", tp.constName)
+		if !ok {
+			r.Fail("R-TPL-DATA", tp.constName, "", "template constant not found")
+			continue
+		}
+		trees, err := parse.Parse(tp.constName, txt, "{{", "}}", map[string]any{})
+		if err != nil || trees[tp.constName] == nil {
+			r.Fail("R-TPL-DATA", tp.constName, "", "the template does not parse")
+			continue
+		}
+		st := w.structOf("provider." + tp.dataType)
+		if st == nil {
+			r.Fail("R-TPL-DATA", tp.constName, "", "data struct "+tp.dataType+" not found")
+			continue
+		}
+		strField := map[string]bool{}
+		for i := 0; i < st.NumFields(); i++ {
+			if b, isB := st.Field(i).Type().(*types.Basic); isB && b.Kind() == types.String {
+				strField[st.Field(i).Name()] = true
+			}
+		}
+		bad := ""
+		n := 0
+		for _, nd := range trees[tp.constName].Root.Nodes {
+			switch x := nd.(type) {
+			case *parse.TextNode:
+			case *parse.ActionNode:
+				n++
+				okRef := false
+				if len(x.Pipe.Decl) == 0 && len(x.Pipe.Cmds) == 1 && len(x.Pipe.Cmds[0].Args) == 1 {
+					if f, isF := x.Pipe.Cmds[0].Args[0].(*parse.FieldNode); isF && len(f.Ident) == 1 && strField[f.Ident[0]] {
+						okRef = true
+					}
+				}
+				if !okRef {
+					bad = "substitution " + x.String() + " is not a plain string field of " + tp.dataType + " (a method, function or pipeline can fail while the page is being written: the reply would be a partial page followed by an error text)"
+				}
+			default:
+				bad = "the template contains a control action (" + nd.String() + ")"
+			}
+		}
+		r.Check(bad == "" && n > 0, "R-TPL-DATA", tp.constName, "", fmt.Sprintf("%d substitutions, all plain string fields of %s", n, tp.dataType), bad)
+	}
 }
